@@ -1,9 +1,50 @@
-(** C04 — placeholder, first stage; replaced by the real statements once Proofs.v exists. *)
-From Algo.C04 Require Import Model Spec.
+(** C04 — Heaps are priority queues: Delete/Peek always return an extremal key.
+    Statements only; every proof is [exact]/[apply] of a lemma of C04/Proofs*.v.
+
+    [run K V cmp eqv i sizes ops] is the list of outputs of the history [ops] on a pool of
+    [length sizes] heaps of implementation [i] (binary / binomial / Fibonacci; [sizes] are the
+    initial sizes given to [NewBinary]) under the comparator [cmp] and the value equality [eqv].
+    [accepts … bags ops outs] says that [outs] is allowed by the bag specification (C04/Spec.v):
+    [Size] is the number of held entries, [Peek]/[Delete] answer a held entry whose key is
+    extremal (any such entry), [Delete] removes exactly that entry, [ContainsKey]/[ContainsValue]
+    are membership over the held multiset, [Merge] gives the receiver the multiset union, and no
+    operation panics or hangs (the specification has no rule for [OPanic]/[OHang]).
+    [well_scoped]: every operation addresses a live heap of the pool; a heap passed to [Merge] is
+    not used afterwards (the Go code shares its nodes with the receiver).
+    Min and max orientation are the same theorem: it holds for every comparator satisfying
+    [TotalOrder], and the reversed comparator satisfies it too ([C04_reverse_comparator]). *)
+From Algo.C04 Require Import Model Spec ProofsCommon Proofs.
 Open Scope Z_scope.
 
+(** Binary heap: every history, every initial size, every total-order comparator. *)
+Theorem C04_simulates_binary :
+  forall (K V : Type) (cmp : K -> K -> Z) (eqv : V -> V -> bool), TotalOrder K cmp ->
+  forall (sizes : list nat) (ops : list (hop K V)),
+    well_scoped K V false (all_live sizes) ops = true ->
+    accepts K V cmp eqv (empty_bags sizes) ops (run K V cmp eqv Binary sizes ops).
+Proof. intros K V cmp eqv TO. exact (binary_simulates cmp eqv TO). Qed.
+
+(** The max orientation is an instance: the reversed comparator is a total order again. *)
+Theorem C04_reverse_comparator :
+  forall (K : Type) (cmp : K -> K -> Z), TotalOrder K cmp -> TotalOrder K (fun a b => cmp b a).
+Proof. intros K cmp TO. exact (TotalOrder_reverse cmp TO). Qed.
+
+(** The executable acceptor that judges the Go implementation's outputs (extracted, run by the
+    driver on every trace) only accepts what the specification allows. *)
+Theorem C04_acceptor_sound :
+  forall (K V : Type) (cmp : K -> K -> Z) (eqv : V -> V -> bool) (eqe : entry K V -> entry K V -> bool),
+    (forall a b, eqe a b = true -> a = b) ->
+    forall P ops outs, check_trace K V cmp eqv eqe P ops outs = true -> accepts K V cmp eqv P ops outs.
+Proof. intros K V cmp eqv eqe H. exact (check_trace_sound cmp eqv eqe H). Qed.
+
+(** Non-vacuity: a concrete history (duplicates of the extremal key, growth from size 0). *)
 Example C04_example :
   run nat nat (fun a b => Z.of_nat a - Z.of_nat b) Nat.eqb Binary [0%nat]
-      [(0, Insert 2 20); (0, Insert 1 10); (0, Insert 1 11); (0, Peek); (0, Delete); (0, Size)]%nat
-  = [ONone; ONone; ONone; OEntry (Some (1, 10)); OEntry (Some (1, 10)); ONat 2]%nat.
+      [(0, Insert 2 20); (0, Insert 1 10); (0, Insert 1 11); (0, Peek); (0, Delete); (0, Size);
+       (0, ContainsKey 1); (0, ContainsValue 10)]%nat
+  = [ONone; ONone; ONone; OEntry (Some (1, 10)); OEntry (Some (1, 10)); ONat 2; OBool true; OBool false]%nat.
 Proof. vm_compute. reflexivity. Qed.
+
+Print Assumptions C04_simulates_binary.
+Print Assumptions C04_reverse_comparator.
+Print Assumptions C04_acceptor_sound.
